@@ -8,7 +8,13 @@ package scepx
 import (
 	"context"
 	"crypto"
+	"crypto/rand"
+	"crypto/rsa"
 	"crypto/x509"
+	"crypto/x509/pkix"
+	"encoding/pem"
+	"math/big"
+	"time"
 	"encoding/base64"
 	"encoding/json"
 	"fmt"
@@ -21,6 +27,7 @@ import (
 	"sync"
 
 	"github.com/go-chi/chi/v5"
+	"github.com/go-chi/chi/v5/middleware"
 	"go.step.sm/crypto/keyutil"
 	"go.step.sm/crypto/minica"
 	"go.step.sm/crypto/pemutil"
@@ -54,6 +61,17 @@ type provSpec struct {
 	// PreInits: how often the harness calls Init on the provisioner object before handing it to
 	// authority.New (which initialises it once more), as test/integration/scep does.
 	PreInits int
+	// CA: "" = the authority with an RSA intermediate (it has a default decrypter), "ec" = the
+	// authority with an EC intermediate (signer only: SCEP needs a provisioner decrypter there).
+	CA string
+	// Dec: provisioner-specific decrypter: "" none, "both" certificate and key, "certonly".
+	Dec     string
+	ForceCN bool
+	ExInt   bool     // ExcludeIntermediate
+	IncRoot bool     // IncludeRoot
+	Caps    []string // Capabilities
+	// CornerOnly: not enumerated in the matrix nor picked by the generator (slow: webhook retries)
+	CornerOnly bool
 }
 
 // the configurations the quick tier enumerates (method none / static / webhook allow, deny,
@@ -81,6 +99,22 @@ var provSpecs = []provSpec{
 	{Name: "hdn2", Hooks: []hookSpec{{"scep", "x509", "deny"}, {"notify", "x509", "allow"}}, PreInits: 1},
 	{Name: "hmn3", Hooks: []hookSpec{{"scep", "x509", "match"}, {"notify", "x509", "allow"}}, PreInits: 2},
 	{Name: "hstn2", Secret: staticSecret, Hooks: []hookSpec{{"notify", "x509", "allow"}, {"scep", "ssh", "allow"}}, PreInits: 1},
+	// provisioner-specific decrypter / signer, chain options, capabilities
+	{Name: "pdec", Secret: staticSecret, Dec: "both"},
+	{Name: "pdecx", Secret: staticSecret, Dec: "both", ExInt: true, IncRoot: true},
+	{Name: "pcert", Secret: staticSecret, Dec: "certonly"},
+	{Name: "pcaps", Secret: staticSecret, IncRoot: true, Caps: []string{"POSTPKIOperation", "SHA-256", "AES"}},
+	{Name: "pexint", Secret: staticSecret, ExInt: true},
+	{Name: "pforce", Secret: staticSecret, ForceCN: true},
+	// the authority whose intermediate key is EC: no default decrypter
+	{Name: "edec", CA: "ec", Secret: staticSecret, Dec: "both"},
+	{Name: "ehook", CA: "ec", Dec: "both", Hooks: []hookSpec{{"scep", "x509", "match"}}, ExInt: true},
+	{Name: "enone", CA: "ec", Secret: staticSecret},
+	// webhooks that answer 503 first: DoWithContext retries once after a pause of one second
+	{Name: "h5a", Hooks: []hookSpec{{"scep", "x509", "r5allow"}}, CornerOnly: true},
+	{Name: "h5d", Hooks: []hookSpec{{"scep", "x509", "r5deny"}}, CornerOnly: true},
+	{Name: "h55", Hooks: []hookSpec{{"scep", "x509", "r55"}, {"scep", "x509", "allow"}}, CornerOnly: true},
+	{Name: "h5m", Hooks: []hookSpec{{"scep", "x509", "deny"}, {"scep", "x509", "r5match"}}, CornerOnly: true},
 }
 
 // csrOnlyProvs: configurations enumerated only with the message types that yield a CSR.
@@ -121,8 +155,10 @@ func (d *countingDB) count() int {
 type hookServer struct {
 	srv      *httptest.Server
 	mu       sync.Mutex
-	calls    int // challenge-validation requests received
+	calls    int // challenge-validation webhook calls (a retry is not a new call)
+	http     int // HTTP requests carrying a challenge validation (retries included)
 	notif    int // notification requests received
+	perID    map[string]int
 	misroute bool
 	last     string
 	seen     bool
@@ -130,12 +166,13 @@ type hookServer struct {
 
 func (h *hookServer) reset() {
 	h.mu.Lock()
-	h.calls, h.notif, h.misroute, h.last, h.seen = 0, 0, false, "", false
+	h.calls, h.http, h.notif, h.misroute, h.last, h.seen = 0, 0, 0, false, "", false
+	h.perID = map[string]int{}
 	h.mu.Unlock()
 }
 
 type hookSnap struct {
-	calls, notif int
+	calls, http, notif int
 	misroute     bool
 	last         string
 	seen         bool
@@ -144,7 +181,7 @@ type hookSnap struct {
 func (h *hookServer) snapshot() hookSnap {
 	h.mu.Lock()
 	defer h.mu.Unlock()
-	return hookSnap{h.calls, h.notif, h.misroute, h.last, h.seen}
+	return hookSnap{h.calls, h.http, h.notif, h.misroute, h.last, h.seen}
 }
 
 // hookDecision is the decision of the "match" endpoint; the harness sends the same decision
@@ -161,8 +198,17 @@ func (h *hookServer) handle(w http.ResponseWriter, r *http.Request) {
 	id := r.Header.Get("X-Smallstep-Webhook-ID")
 	isChallengeCall := req.ProvisionerName != ""
 	h.mu.Lock()
+	if h.perID == nil {
+		h.perID = map[string]int{}
+	}
+	h.perID[id]++
+	nth := h.perID[id] // n-th request to this webhook within the case
+	retryPath := strings.HasPrefix(r.URL.Path, "/r5")
 	if isChallengeCall {
-		h.calls++
+		h.http++
+		if !(retryPath && nth > 1) {
+			h.calls++
+		}
 		h.last, h.seen = req.SCEPChallenge, true
 	} else {
 		h.notif++
@@ -186,6 +232,18 @@ func (h *hookServer) handle(w http.ResponseWriter, r *http.Request) {
 		} else {
 			fmt.Fprint(w, `{"allow":false}`)
 		}
+	case "/r5allow", "/r5deny", "/r55", "/r5match":
+		// first request of a case: 503; the retry gets the answer
+		if nth == 1 || r.URL.Path == "/r55" {
+			http.Error(w, "busy", http.StatusServiceUnavailable)
+			return
+		}
+		allow := r.URL.Path == "/r5allow" || (r.URL.Path == "/r5match" && hookDecision(req.SCEPChallenge))
+		if allow {
+			fmt.Fprint(w, `{"allow":true}`)
+		} else {
+			fmt.Fprint(w, `{"allow":false}`)
+		}
 	default:
 		http.Error(w, "nf", http.StatusNotFound)
 	}
@@ -201,12 +259,11 @@ type testCA struct {
 	store   *countingDB
 	hooks   *hookServer
 	provs   map[string]*provisioner.SCEP // the provisioner objects, to read Options.Webhooks after Init
+	kind    string                       // "" (RSA intermediate) | "ec"
+	decs    map[string]*clientKey        // provisioner name -> its own decrypter certificate and key
 }
 
 func (t *testCA) close() {
-	if t.hooks != nil {
-		t.hooks.srv.Close()
-	}
 	if t.auth != nil {
 		_ = t.auth.Shutdown()
 	}
@@ -234,18 +291,23 @@ func certTypeName(c string) string {
 	return ""
 }
 
-func newTestCA() (*testCA, error) {
-	t := &testCA{}
+func newTestCA(kind string, hooks *hookServer) (*testCA, error) {
+	t := &testCA{kind: kind, hooks: hooks, decs: map[string]*clientKey{}}
 	dir, err := os.MkdirTemp("", "c15-ca-")
 	if err != nil {
 		return nil, err
 	}
 	t.dir = dir
-	signer, err := keyutil.GenerateSigner("RSA", "", 2048)
+	var signer crypto.Signer
+	if kind == "ec" {
+		signer, err = keyutil.GenerateSigner("EC", "P-256", 0)
+	} else {
+		signer, err = keyutil.GenerateSigner("RSA", "", 2048)
+	}
 	if err != nil {
 		return nil, err
 	}
-	m, err := minica.New(minica.WithName("C15"), minica.WithGetSignerFunc(func() (crypto.Signer, error) { return signer, nil }))
+	m, err := minica.New(minica.WithName("C15"+kind), minica.WithGetSignerFunc(func() (crypto.Signer, error) { return signer, nil }))
 	if err != nil {
 		return nil, err
 	}
@@ -263,12 +325,12 @@ func newTestCA() (*testCA, error) {
 		return nil, err
 	}
 
-	t.hooks = &hookServer{}
-	t.hooks.srv = httptest.NewServer(http.HandlerFunc(t.hooks.handle))
-
 	var provs provisioner.List
 	t.provs = map[string]*provisioner.SCEP{}
 	for _, ps := range provSpecs {
+		if ps.CA != kind {
+			continue
+		}
 		p := &provisioner.SCEP{
 			ID:                            "scep-" + ps.Name,
 			Name:                          ps.Name,
@@ -277,6 +339,36 @@ func newTestCA() (*testCA, error) {
 			EncryptionAlgorithmIdentifier: 2,
 			MinimumPublicKeyLength:        2048,
 			Claims:                        &config.GlobalProvisionerClaims,
+			ForceCN:                       ps.ForceCN,
+			ExcludeIntermediate:           ps.ExInt,
+			IncludeRoot:                   ps.IncRoot,
+			Capabilities:                  ps.Caps,
+		}
+		if ps.Dec != "" {
+			dk, err := rsa.GenerateKey(rand.Reader, 2048)
+			if err != nil {
+				return nil, err
+			}
+			dc, err := m.Sign(&x509.Certificate{
+				Subject:      pkix.Name{CommonName: "decrypter-" + ps.Name},
+				PublicKey:    dk.Public(),
+				SerialNumber: big.NewInt(int64(7000 + len(t.decs))),
+				NotBefore:    time.Now().Add(-time.Hour),
+				NotAfter:     time.Now().Add(24 * time.Hour),
+				KeyUsage:     x509.KeyUsageDigitalSignature | x509.KeyUsageKeyEncipherment,
+			})
+			if err != nil {
+				return nil, err
+			}
+			t.decs[ps.Name] = &clientKey{"dec-" + ps.Name, dk, dc}
+			p.DecrypterCertificate = pem.EncodeToMemory(&pem.Block{Type: "CERTIFICATE", Bytes: dc.Raw})
+			if ps.Dec == "both" {
+				blk, err := pemutil.Serialize(dk)
+				if err != nil {
+					return nil, err
+				}
+				p.DecrypterKeyPEM = pem.EncodeToMemory(blk)
+			}
 		}
 		if len(ps.Hooks) > 0 {
 			p.Options = &provisioner.Options{}
@@ -304,6 +396,9 @@ func newTestCA() (*testCA, error) {
 		provs = append(provs, p)
 	}
 
+	if kind == "" {
+		provs = append(provs, &provisioner.ACME{ID: "acme-x", Name: "acmeprov", Type: "ACME", Claims: &config.GlobalProvisionerClaims})
+	}
 	cfg := &config.Config{
 		Root:             []string{rootFile},
 		IntermediateCert: intFile,
@@ -311,7 +406,7 @@ func newTestCA() (*testCA, error) {
 		Address:          "127.0.0.1:0",
 		DNSNames:         []string{"127.0.0.1", "localhost"},
 		AuthorityConfig: &config.AuthConfig{
-			AuthorityID:    "c15",
+			AuthorityID:    "c15" + kind,
 			DeploymentType: "standalone-test",
 			Provisioners:   provs,
 		},
@@ -329,8 +424,11 @@ func newTestCA() (*testCA, error) {
 	if scepAuth == nil {
 		return nil, fmt.Errorf("no SCEP authority")
 	}
-	// as ca.CA.Init: mux.Route("/scep", scepAPI.Route) under buildContext(auth, scepAuthority, …)
+	// as ca.CA.Init wires both its TLS mux and its insecure mux: chi router, middleware.GetHead,
+	// Route("/scep", scepAPI.Route), under buildContext(auth, scepAuthority, …); the wiring itself is
+	// re-read from ca/ca.go by the extractor (facts line)
 	mux := chi.NewRouter()
+	mux.Use(middleware.GetHead)
 	mux.Route("/scep", func(r chi.Router) { scepAPI.Route(r) })
 	base := authority.NewContext(context.Background(), t.auth)
 	base = db.NewContext(base, t.auth.GetDatabase())
